@@ -65,18 +65,24 @@ def run(chk):
         rjobs = [("rec", s * 100 + 70 + i, 4, 20000, 0, "Vidya") for i in range(6)] + [("rec", s * 100 + 80 + i, 13, 8000, 0) for i in range(4)]
     f3 = background(numfam.record_validate, chk, yv, "c07rec", rjobs, nproc=4)
     f4 = background(long_indicators, chk, yv, quick)
-    # soak checkpoints
+    # soak checkpoints: one trace per subject and run (a rejection of one subject does not cut short the others)
     jobs = []
-    for i in range(2 if quick else 3):
-        tf = os.path.join(wd, "soak_%d.ndjson" % i)
+    SOAK = ["SMA", "WMA", "SWMA", "TRIMA", "HMA", "LinReg", "Integral", "StDev", "MeanAbsDev", "LinearVolatility", "Momentum", "Derivative",
+            "EMA", "DMA", "TMA", "DEMA", "TEMA", "RMA", "WSMA"]
+
+    def rec(arg):
+        i, subj = arg
+        tf = os.path.join(wd, "soak_%d_%s.ndjson" % (i, subj))
         steps = (100000 + 7777 * i) if quick else (10000000 + 7777 * i)
-        n = lines_of(run_harness(yr, ["soak-record", chk.seed * 10 + i, steps, tf] + (["small"] if quick else []), timeout=3000))[0]["events"]
-        jobs.append((tf, n, steps))
+        n = lines_of(run_harness(yr, ["soak-record", chk.seed * 10 + i, steps, tf, "small" if quick else "full", subj], timeout=3000))[0]["events"]
+        return (tf, n, steps)
+    for job in parallel([(i, sj) for i in range(2 if quick else 3) for sj in SOAK], rec, nproc=8):
+        jobs.append(job)
 
     def val(job):
         ok, info, r = tlc_trace("Trace_Num", "Trace_Num.cfg", job[0], timeout=6000)
         return job, ok, info, r
-    for job, ok, info, r in parallel(jobs, val, nproc=3):
+    for job, ok, info, r in parallel(jobs, val, nproc=8):
         if ok:
             chk.cov["events_validated"] += job[1]
             chk.cov["states"] += r.distinct
@@ -89,7 +95,7 @@ def run(chk):
             chk.finding("%s:soak:%s" % (p["subject"], "panic" if p.get("panic") else "value"),
                         {"stage": "B:soak", "trace": job[0], "steps": job[2], "params": p["params"], "rejected_at": {kk: info[kk] for kk in ("matched", "total")}})
     chk.cov["traces_validated_against_impl"] += len(jobs)
-    chk.stage("B:soak", traces=len(jobs), steps_per_instance=[j[2] for j in jobs], subjects=19, instances_per_trace=76 if not quick else 64)
+    chk.stage("B:soak", traces=len(jobs), steps_per_instance=sorted(set(j[2] for j in jobs)), subjects=19, instances_per_subject=4)
     f1.result()
     f2.result()
     f3.result()
